@@ -34,6 +34,20 @@ func app(op string, args ...string) string {
 			}
 		}
 	}
+	if len(args) == 1 && strings.HasPrefix(op, "wrap") && isNumeral(args[0]) {
+		// wrapU64 / wrapS32 … of a literal: fold
+		var bits int
+		signed := op[4] == 'S'
+		if _, err := fmt.Sscanf(op[5:], "%d", &bits); err == nil && bits > 0 && (op[4] == 'S' || op[4] == 'U') {
+			v := parseNumeral(args[0])
+			m := new(big.Int).Lsh(big.NewInt(1), uint(bits))
+			v = new(big.Int).Mod(v, m)
+			if signed && v.Cmp(new(big.Int).Rsh(m, 1)) >= 0 {
+				v.Sub(v, m)
+			}
+			return bigNum(v)
+		}
+	}
 	return "(" + op + " " + strings.Join(args, " ") + ")"
 }
 
